@@ -836,7 +836,7 @@ def c12_model_configs(tier):
     read, handler completions between arrivals; monitor composed in TLC, replayed, validated event by event"""
     T, F = "TRUE", "FALSE"
     n = 4 if tier == "quick" else 5
-    q = 500 if tier == "quick" else 100000
+    q = 350 if tier == "quick" else 100000
     return [
         ep_config("m_v3s_r1", quota=q, ver=3, role="server", ids="Ids123", n=n, kinds="KLim", extra="XBurst", outs="OOk", imm=F, gp=F, mr=1),
         ep_config("m_v3s_r2", quota=q, ver=3, role="server", ids="Ids123", n=n, kinds="KLim", extra="XBurstCtl", outs="OOk", imm=T, gp=T, mr=2),
@@ -871,13 +871,13 @@ def c12_configs(tier):
     # re-transmitted identifiers (token 10) against the Receive Maximum: every sequence up to 4 (quick) / 5
     for kind, mr in [("v5s", 1), ("v5s", 2), ("v5c", 1)]:
         cs.append((f"{kind}_r{mr}_dup", PKTSEQ_CFG.format(nt=10, maxlen=4 if tier == "quick" else 5, minlen=3), "PktSeq",
-                   c12_decode_for(kind, mr, 0), [None], 1500 if tier == "quick" else 100000))
+                   c12_decode_for(kind, mr, 0), [None], 1000 if tier == "quick" else 100000))
     return cs
 
 
 reg(dict(
     name="limits", judge="ProtoJudge", configs=c12_configs, signature=inb_signature,
-    level={}, quota=500, quota_thorough=15000,
+    level={}, quota=300, quota_thorough=15000,
     rule="TLC enumerates every sequence (<= 4 quick, <= 5 thorough) over 8 tokens: small / byte-limit-sized / QoS 0 / "
          "streamed publish, next payload chunk, control packet, complete oldest / second-oldest handler; against gated "
          "handlers for max_receive 0..4, max_receive_size 0/40, v3 default middleware and v5 Receive Maximum (server and "
